@@ -197,16 +197,31 @@ func GenScenario(t *rapid.T, o GenOpts) Scenario {
 		st = append(st, len(sc.Pool)-1)
 		sc.Stack = append(st, sc.Stack[at:]...)
 	}
+	hasHedge := false
+	for _, p := range sc.Stack {
+		if sc.Pool[p].Kind == "hedge" {
+			hasHedge = true
+		}
+	}
+	if hasHedge {
+		// A hedge abandons its attempts when the execution is cancelled: what is inside the hedge then finishes
+		// asynchronously, which a sequential model cannot follow. Cancellation x hedge is covered by C08/C09; here a stack
+		// with a hedge gets no cancellation source (and no always-fires timeout around the hedge, below).
+		for i := range sc.Pool {
+			sc.Pool[i].FbCancel = false
+			sc.Pool[i].CancelInScheduled = false
+		}
+	}
 	if usedFire {
 		// beneath an always-fires timeout: no bulkhead / limiter (they branch on cancellation before the function is
-		// entered); nowhere: unlimited retries
+		// entered) and no hedge (see above); nowhere: unlimited retries
 		after := false
 		clean := sc.Stack[:0]
 		for _, p := range sc.Stack {
 			in := sc.Pool[p]
 			if in.Kind == "timeout" && in.Fire {
 				after = true
-			} else if after && (in.Kind == "bulkhead" || in.Kind == "limiter") {
+			} else if after && (in.Kind == "bulkhead" || in.Kind == "limiter" || in.Kind == "hedge") {
 				continue
 			}
 			if in.Kind == "retry" && in.MaxRetries == -1 {
@@ -277,7 +292,7 @@ func GenScenario(t *rapid.T, o GenOpts) Scenario {
 				st.CtxKey = rapid.SampledFrom(keys).Draw(t, "ctxKey")
 			}
 			nOut := rapid.IntRange(0, o.MaxScript).Draw(t, "scriptN")
-			cancelMode := !usedFire && o.CancelOneIn > 0 && rapid.IntRange(1, o.CancelOneIn).Draw(t, "cancelMode") == 1
+			cancelMode := !usedFire && !hasHedge && o.CancelOneIn > 0 && rapid.IntRange(1, o.CancelOneIn).Draw(t, "cancelMode") == 1
 			for k := 0; k < nOut; k++ {
 				oc := Outcome{V: rapid.IntRange(0, 3).Draw(t, "v"), E: genErrName(t, o.RichErrors, "e")}
 				if cancelMode && rapid.IntRange(0, 2).Draw(t, "c") == 0 {
